@@ -8,12 +8,14 @@ from harness import common as C
 from harness import gen, model, ref
 from harness.model import T
 from harness.props.c01 import compare_load, load_outcome
+from harness.props import v1streams
 
 TAG_KEYS = [None, None, 'type', 'kind', '__tag__', 'my tag', "it's", 'a"b', 'tag\\key', '{o}', 'new\nline', 'ключ']
 
 
-def gen_family(rng, auto, n):
+def gen_family(rng, auto, n, fresh=None):
     """n member classes with overlapping / identical field sets"""
+    fresh = fresh or model.fresh
     base_fields = [('val_one', T('int')), ('name_txt', T('str')), ('flag_on', T('bool')), ('num_val', T('float'))]
     members = []
     shared = rng.sample(base_fields, rng.randint(1, 3))
@@ -39,9 +41,9 @@ def gen_family(rng, auto, n):
         meta = {}
         explicit = (not auto) or rng.random() < 0.4
         if explicit:
-            meta['tag'] = rng.choice([model.fresh('tag'), f'T{i}', f'tag {i}', f"q'{i}", f'ü{i}'])
+            meta['tag'] = rng.choice([fresh('tag'), f'T{i}', f'tag {i}', f"q'{i}", f'ü{i}'])
         wizard = rng.random() < 0.5
-        info = {'name': model.fresh('M'), 'fields': fields, 'wizard': wizard, 'meta': meta or None}
+        info = {'name': fresh('M'), 'fields': fields, 'wizard': wizard, 'meta': meta or None}
         members.append({'k': 'cls', 'info': info, 'ftys': ftys})
     return members
 
@@ -78,6 +80,10 @@ def with_auto_tags(ty, auto_root):
 
 
 def run(ctx: C.Ctx):
+    v1streams.run_streams(ctx, run_default, run_v1)
+
+
+def run_default(ctx: C.Ctx):
     from dataclass_wizard import fromdict, asdict
     from dataclass_wizard.errors import ParseError, UnknownKeysError
     rng = ctx.rng
@@ -216,3 +222,187 @@ def run(ctx: C.Ctx):
         outs = ctx.driver.run(reqs)
         for (case, out, built), o_ in zip(pend, outs):
             compare_load(ctx, 'tagged', case, out, o_, built)
+
+
+# --------------------------------------------------------------------------- v1 engine
+
+V1_TAG_KEYS = [None, None, 'type', 'kind', '__tag__', 'type', 'kind', 'my tag', "it's", 'a"b', 'tag\\key', '{o}', 'ключ']
+_AT = {'bare': lambda z: z, 'optional': lambda z: z, 'list': lambda z: z[0], 'dictval': lambda z: z['a'], 'tuple': lambda z: z[1]}
+
+
+def run_v1(ctx: C.Ctx):
+    from dataclass_wizard import fromdict, asdict
+    from dataclass_wizard.errors import ParseError, UnknownKeysError
+    rng = v1streams.sub_rng(ctx)
+    gen.SUBS = False
+    ctx.rule = ('v1 engine (root Meta v1=True, dump keys as field names): the same families of 2..4 look-alike member dataclasses × tag assignment '
+                '(explicit, auto_assign_tags, mixed) × tag_key strings × rotations of the Union arguments with scalar members and None mixed in × '
+                'container position × root policy (none, v1_on_unknown_key=RAISE cascading to the members, CatchAll member with default None / without '
+                'default) × members that mirror their tag in an init=False attribute named like the tag key: dump writes the tag, load(dump(k)) is K and '
+                'equals k, the tag key is neither reported unknown nor captured while a genuinely unknown key still is, unassigned tags raise ParseError '
+                'with valid_tags, a missing tag raises ParseError unless a str / bool member coerces the dict; also vs the Lean model of the v1 engine. '
+                'Non-trivial = distinct (family, member, position).')
+    n = ctx.quick(300, 3500)
+    reqs, pend = [], []
+    for j in range(n):
+        i = v1streams.OFFSET + j
+        if ctx.done(i):
+            break
+        nm = v1streams.Namer(j)
+        auto = rng.random() < 0.45
+        members = gen_family(rng, auto, rng.randint(2, 4), fresh=nm)
+        scalars = rng.sample([T('int'), T('str'), T('bool'), T('none'), T('float')], rng.randint(0, 2))
+        args = members + scalars
+        rng.shuffle(args)
+        rot = rng.randint(0, len(args) - 1)
+        args = args[rot:] + args[:rot]
+        union = T('union', *args)
+        pos = rng.choice(['bare', 'optional', 'list', 'dictval', 'tuple'])
+        if pos == 'optional' and not any(a['k'] == 'none' for a in args):
+            union = T('union', *(args + [T('none')]))
+        ft = {'bare': union, 'optional': union, 'list': T('list', union), 'dictval': T('dict', T('str'), union),
+              'tuple': T('tuple', T('str'), union)}[pos]
+        meta = {'v1': True, 'key_transform_with_dump': 'NONE'}
+        tk = rng.choice(V1_TAG_KEYS)
+        if tk is not None:
+            meta['tag_key'] = tk
+        if auto:
+            meta['auto_assign_tags'] = True
+        policy = rng.choice(['none', 'raise', 'raise', 'catchall', 'catchall'])
+        if policy == 'raise':
+            meta['v1_on_unknown_key'] = 'RAISE'
+        eff_key = tk or '__tag__'
+        mirror = []
+        for m in members:
+            own = m['info'].get('meta') or {}
+            tag = own.get('tag') or (m['info']['name'] if auto else None)
+            if policy == 'catchall' and rng.random() < 0.7:
+                cf = {'name': 'rest_items', 'catch_all': True}
+                if rng.random() < 0.7:
+                    cf.update(dflt=['lit', None], factory=False)
+                    m['info']['fields'].append(cf)
+                else:
+                    idx = next((q for q, f in enumerate(m['info']['fields']) if f.get('dflt') is not None), len(m['info']['fields']))
+                    m['info']['fields'].insert(idx, cf)
+                m['ftys'].append(['rest_items', T('any')])
+            # a read-only discriminator attribute named like the tag key (never a constructor argument)
+            if eff_key.isidentifier() and tag is not None and rng.random() < 0.45 and not any(f['name'] == eff_key for f in m['info']['fields']):
+                m['info']['fields'].append({'name': eff_key, 'dflt': ['lit', tag], 'factory': False, 'init': False})
+                m['ftys'].append([eff_key, T('str')])
+                mirror.append(m['info']['name'])
+        root = {'k': 'cls', 'info': {'name': nm('R'), 'fields': [{'name': 'member_fld'}], 'wizard': True, 'meta': meta},
+                'ftys': [['member_fld', ft]]}
+        try:
+            built = model.Built(root)
+        except Exception as e:
+            ctx.count('build_error')
+            ctx.notes.setdefault('build_errors', []).append(repr(e)[:300])
+            continue
+        try:
+            K = rng.choice(members)
+            k = gen.gen_instance(rng, K, built, use_defaults_prob=0.3)
+            k2 = gen.gen_instance(rng, rng.choice(members), built)
+            for z in (k, k2):
+                cf = next((f for f in built.infos[type(z).__name__]['info']['fields'] if f.get('catch_all')), None)
+                if cf is not None and cf.get('dflt') is not None and z.rest_items == {}:
+                    z.rest_items = None      # what a load gives when nothing is captured
+            wrapped = {'bare': k, 'optional': k, 'list': [k, k2], 'dictval': {'a': k}, 'tuple': ('s', k)}[pos]
+            x = built.root(member_fld=wrapped)
+            variant = rng.choice(['unassigned', 'missing', 'extra-key'])
+            bad_tag_pick = rng.randint(0, 4)
+            if not ctx.begin_case(i):
+                continue
+            case = {'ty': root, 'member': K['info']['name'], 'pos': pos, 'inst': repr(x)[:400], 'engine': 'v1', 'policy': policy, 'mirror': mirror}
+            ctx.seen('tagged:v1:' + pos, case)
+            src = dict(src=built.source)
+            own = K['info'].get('meta') or {}
+            exp_tag = own.get('tag') or (K['info']['name'] if auto else None)
+            try:
+                d = asdict(x)
+            except Exception as e:
+                ctx.fail('tagged:v1:dump', case, f'asdict raised {e!r}', detail=src)
+                continue
+            dk = _AT[pos](d['member_fld']) if 'member_fld' in d else None
+            if not isinstance(dk, dict) or dk.get(eff_key) != exp_tag or exp_tag is None:
+                ctx.fail('tagged:v1:dump-tag', case, f'dumped member {dk!r} does not carry tag {exp_tag!r} under key {eff_key!r}', detail=src)
+                continue
+            jd = json.loads(json.dumps(d))
+            out = load_outcome(lambda: fromdict(built.root, copy.deepcopy(jd)))
+            has_ca = hasattr(k, 'rest_items')
+            if out[0] == 'err':
+                e = out[1]
+                extra = f' naming {v1streams.unknown_keys_of(e)!r} for class {e.class_name!r}' if isinstance(e, UnknownKeysError) else ''
+                ctx.fail('tagged:v1:roundtrip', case, f'load(dump(k)) raised {type(e).__name__}{extra}: {str(e)[:300]}', detail=src)
+            else:
+                yk = _AT[pos](out[1].member_fld)
+                if has_ca and isinstance(yk.rest_items, dict) and eff_key in yk.rest_items and eff_key not in (k.rest_items or {}):
+                    ctx.fail('tagged:v1:captured', case, f'the tag key was captured by CatchAll: {yk.rest_items!r}', detail=src)
+                elif type(yk) is not type(k) or not ref.same_typed(yk, k):
+                    ctx.fail('tagged:v1:roundtrip', case, f'load(dump(k)) gave {yk!r}, expected {k!r}', detail=src)
+            # ---- the same document loaded by freshly defined classes that have never dumped (load first)
+            built2 = model.Built(root)
+            try:
+                outf = load_outcome(lambda: fromdict(built2.root, copy.deepcopy(jd)))
+                ctx.seen('tagged:v1:load-first', case)
+                if outf[0] == 'err':
+                    ctx.fail('tagged:v1:load-first', case, f'load of a dumped document by classes that never dumped raised '
+                             f'{type(outf[1]).__name__}: {str(outf[1])[:300]}', detail=src)
+                elif out[0] == 'ok' and repr(outf[1]) != repr(out[1]):
+                    ctx.fail('tagged:v1:load-first', case, f'load-first gave {outf[1]!r}, after a dump {out[1]!r}', detail=src)
+            finally:
+                built2.close()
+            st = model.StdTables()
+            st.add_json(jd)
+            mty = with_auto_tags(root, auto)
+            reqs.append({'op': 'loadv1', 'ty': model.enc_ty(mty), 'doc': model.enc_j(jd), 'std': st.build()})
+            pend.append((case, out, built))
+            # ---- bad / missing tag, genuinely unknown key next to the tag
+            bad = copy.deepcopy(jd)
+            tgt = _AT[pos](bad['member_fld'])
+            assigned = [(m['info'].get('meta') or {}).get('tag') or (m['info']['name'] if auto else None) for m in members]
+            if variant == 'unassigned':
+                tgt[eff_key] = ['nope', 'Zzz', '', exp_tag + 'x', exp_tag.lower() + '_'][bad_tag_pick]
+            elif variant == 'missing':
+                tgt.pop(eff_key, None)
+            else:
+                tgt['zzz_unknown'] = 7
+            out2 = load_outcome(lambda: fromdict(built.root, copy.deepcopy(bad)))
+            case2 = dict(case, variant=variant, doc=repr(bad)[:400])
+            ctx.seen('tagged:v1:bad-' + variant, case2)
+            coercing = any(a['k'] in ('str', 'bool') for a in args)
+            if variant == 'extra-key':
+                if policy == 'raise':
+                    if not (out2[0] == 'err' and isinstance(out2[1], UnknownKeysError) and v1streams.unknown_keys_of(out2[1]) == ['zzz_unknown']
+                            and out2[1].class_name == K['info']['name']):
+                        got = (type(out2[1]).__name__, getattr(out2[1], 'unknown_keys', None), getattr(out2[1], 'class_name', None)) if out2[0] == 'err' else out2[1]
+                        ctx.fail('tagged:v1:bad-extra-key', case2, f'RAISE: expected UnknownKeysError naming exactly zzz_unknown for {K["info"]["name"]}, got {got!r}'[:600], detail=src)
+                elif out2[0] == 'err':
+                    ctx.fail('tagged:v1:bad-extra-key', case2, f'an unknown key next to the tag made the load fail: {type(out2[1]).__name__}: {str(out2[1])[:200]}', detail=src)
+                elif has_ca:
+                    yk2 = _AT[pos](out2[1].member_fld)
+                    want = dict(k.rest_items or {})
+                    want['zzz_unknown'] = 7
+                    if yk2.rest_items != want:
+                        ctx.fail('tagged:v1:bad-extra-key', case2, f'CatchAll holds {yk2.rest_items!r}, expected exactly {want!r} (never the tag key)', detail=src)
+            elif variant == 'unassigned' and tgt[eff_key] in assigned:
+                pass
+            elif variant == 'missing' and coercing:
+                ctx.count('v1:missing-tag-coercible')
+            elif out2[0] == 'ok':
+                ctx.fail('tagged:v1:bad-' + variant, case2, f'a dict with {variant} tag was accepted: {out2[1]!r}'[:600], detail=src)
+            elif not isinstance(out2[1], ParseError):
+                ctx.fail('tagged:v1:bad-' + variant, case2, f'expected ParseError, got {type(out2[1]).__name__}: {str(out2[1])[:200]}', detail=src)
+            elif variant == 'unassigned':
+                vt = out2[1].kwargs.get('valid_tags')
+                if vt is None or sorted(vt) != sorted(a for a in assigned if a):
+                    ctx.fail('tagged:v1:bad-unassigned', case2, f'ParseError valid_tags {vt!r}, assigned tags {sorted(a for a in assigned if a)!r}', detail=src)
+            st2 = model.StdTables()
+            st2.add_json(bad)
+            reqs.append({'op': 'loadv1', 'ty': model.enc_ty(mty), 'doc': model.enc_j(bad), 'std': st2.build()})
+            pend.append((case2, out2, built))
+        finally:
+            built.close()
+    if ctx.model_available:
+        outs = ctx.driver.run(reqs)
+        for (case, out, built), o_ in zip(pend, outs):
+            compare_load(ctx, 'tagged:v1', case, out, o_, built)
